@@ -102,9 +102,11 @@ class Repo:
                     tree = expand_format_calls(tree)
                     tree, decs = expand_decorators(tree)
                     tree, dcs = desugar_dataclasses(tree)
+                    from .inline import expand_contextmanagers
+                    tree, cms = expand_contextmanagers(tree)
                 except RecursionError:
-                    decs, dcs = [], []
-                inlined = list(decs) + [f"@dataclass {c}" for c in dcs]
+                    decs, dcs, cms = [], [], []
+                inlined = list(decs) + [f"@dataclass {c}" for c in dcs] + [f"@contextmanager {c}" for c in cms]
             if (name in FLATTEN or name in FLATTEN_UNDERSCORE) and not os.environ.get("CMINX_SA_NO_FLATTEN"):
                 from .inline import flatten_module
                 try:
